@@ -1,10 +1,58 @@
 (* Properties_C04.v — C04: the CBOR decoder accepts exactly well-formed CBOR
-   and yields what the bytes say.  (Statements are added as the proofs in
-   CborDecProof.v land; see DESIGN.md for the full list.) *)
+   and yields what the bytes say.  [parse_item] (CborParse.v) is the
+   recursive-descent reading of RFC 7049 restricted to refmt's subset; the
+   decoder automaton [dec_run] (CborDec.v) is what is compared with the Go code.
+   Statements only; proofs in CborDecProof.v / CborRoundtrip.v. *)
 From Coq Require Import List ZArith.
-Require Import Tok CborSpec CborEnc CborDec CborParse.
+Require Import Tok CborSpec CborEnc CborDec CborParse CborDecProof CborRoundtrip.
 Import ListNotations.
 Open Scope Z_scope.
+
+(* If the bytes begin with a well-formed item, the decoder yields exactly its
+   tokens and consumes exactly its bytes ... *)
+Theorem C04_complete : forall c bs n rest,
+  parse_item c bs = POk n rest -> exists a, dec_run c bs = DOk (flatten n) rest a.
+Proof. intros c bs n rest H. exact (dec_complete _ c bs n rest H). Qed.
+Print Assumptions C04_complete.
+
+(* ... otherwise it returns an error (of the same class) ... *)
+Theorem C04_rejects : forall c bs e,
+  parse_item c bs = PErr e -> exists toks a, dec_run c bs = DFail e toks a.
+Proof. intros c bs e H. exact (dec_error _ c bs e H). Qed.
+Print Assumptions C04_rejects.
+
+(* ... and it never returns a value the bytes do not encode. *)
+Theorem C04_sound : forall c bs toks rest a,
+  dec_run c bs = DOk toks rest a -> exists n, parse_item c bs = POk n rest /\ toks = flatten n.
+Proof. exact dec_sound. Qed.
+Print Assumptions C04_sound.
+
+Theorem C04_error_only_if_not_wellformed : forall c bs e toks a,
+  dec_run c bs = DFail e toks a -> parse_item c bs = PErr e.
+Proof. exact dec_rejects. Qed.
+Print Assumptions C04_error_only_if_not_wellformed.
+
+(* The reference reading always has a verdict, and the decoder always returns
+   a value or an error: no panic, no running out of steps (also used by C06). *)
+Theorem C04_spec_total : forall c bs, parse_item c bs <> PFuel.
+Proof. exact parse_item_total. Qed.
+Theorem C04_decoder_total : forall c bs,
+  (exists toks rest a, dec_run c bs = DOk toks rest a) \/ (exists e toks a, dec_run c bs = DFail e toks a).
+Proof. exact dec_total. Qed.
+Print Assumptions C04_decoder_total.
+
+(* It consumes a non-empty prefix of the input and nothing else. *)
+Theorem C04_consumes_prefix : forall c bs toks rest a,
+  dec_run c bs = DOk toks rest a -> exists used, bs = used ++ rest /\ used <> [].
+Proof. exact dec_consumes_prefix. Qed.
+
+(* Terminals: every well-formed head, in any of the five argument sizes,
+   denotes the value the relational head specification assigns. *)
+Theorem C04_heads : forall m ai arg v rest,
+  (m = 0 \/ m = 32 \/ m = 64 \/ m = 96 \/ m = 128 \/ m = 160 \/ m = 192 \/ m = 224) ->
+  HeadVal ai arg v -> dec_uint (m + ai) (arg ++ rest) = inl (v, rest).
+Proof. exact head_decode. Qed.
+Print Assumptions C04_heads.
 
 (* Non-vacuity / sanity, evaluated by the kernel: -2^64 is rejected, -2^63 is
    accepted; a nested tag is rejected; a truncated item is rejected. *)
@@ -17,3 +65,7 @@ Proof. vm_compute. reflexivity. Qed.
 Example C04_nested_tag_rejected :
   match dec_run false [193;194;0] with DFail _ _ _ => True | _ => False end.
 Proof. vm_compute. exact I. Qed.
+Example C04_wellformed_example :
+  parse_item true [191; 97; 107; 247; 255; 7] =
+  POk (Node None (VMap (-1) [(Node None (VStr [107]), Node None VNull)])) [7].
+Proof. vm_compute. reflexivity. Qed.
